@@ -65,6 +65,7 @@ structure Call where
   at_ : Nat
   cid : Nat
   op : Op
+  inLd : Option Nat := none     -- the call is issued from inside the loader of Load call `inLd` (dependent loads)
 
 structure Scen where
   P : Nat
@@ -124,6 +125,13 @@ def parseCall (keys : List String) (seg : String) : Option (List String × Call)
     | _, _ => none
   | _ => none
 
+/-- `in=cN`: issued by the loader of cN when it runs (as an ordinary client call of the model: invocations are
+    environment actions and may happen at any time; the loader's return waits for them – `lmid`) -/
+def parseCallIn (keys : List String) (seg : String) : Option (List String × Call) :=
+  match parseCall keys seg with
+  | some (keys, c) => some (keys, { c with inLd := (kvOf "in=" (words seg)).bind parseCid? })
+  | none => none
+
 def parseScen (line : String) : Option Scen :=
   match line.splitOn " | " with
   | [head, body] =>
@@ -136,7 +144,7 @@ def parseScen (line : String) : Option Scen :=
         match acc with
         | none => none
         | some (keys, calls) =>
-          match parseCall keys seg with
+          match parseCallIn keys seg with
           | some (keys, c) => some (keys, calls ++ [c])
           | none => none) (some ([], []))
       r.map (fun (keys, calls) => { P := p, J := j, En := en, Ee := ee, calls := calls, keys := keys })
@@ -151,6 +159,7 @@ inductive Ev
   | retPanic (c : Nat)
   | lstart (ld : Nat) (key : String) (n : Nat)
   | lend (n : Nat) (shown : String)
+  | lmid (n : Nat)              -- the loader's nested calls have returned; its own work (dur) starts now
   | fin
   | hang (who : String)
   | bad (s : String)
@@ -185,6 +194,10 @@ def parseEv (seg : String) : Nat × Ev :=
     match t.toNat?, parseCid? c, parseHashNat? n with
     | some t, some c, some n => (t, .lstart c (dropChars 2 k) n)
     | _, _, _ => (0, .bad seg)
+  | [t, "lmid", n] =>
+    match t.toNat?, parseHashNat? n with
+    | some t, some n => (t, .lmid n)
+    | _, _ => (0, .bad seg)
   | [t, "lend", n, v, e] =>
     match t.toNat?, parseHashNat? n with
     | some t, some n => (t, .lend n (v ++ " " ++ e))
@@ -207,6 +220,7 @@ structure M where
   active : List Cid                  -- invoked and not yet returned
   pcalled : List Cid := []           -- contract-violating calls that were issued and have not yet panicked
   pdone : List Cid := []             -- … that have panicked
+  waitNested : List Nat := []        -- loader invocations that are still performing their nested calls (no `lmid` yet)
 
 def callOf (env : Env) (c : Nat) : Option Call := env.sc.calls.find? (·.cid = c)
 
@@ -265,6 +279,7 @@ def hashM (env : Env) (m : M) : UInt64 :=
   let h6 := s.chan.foldl (fun h j => mixHash h (hash j)) h5
   let h6 := m.pcalled.foldl (fun h c => mixHash h (hash c)) (mixHash h6 31)
   let h6 := m.pdone.foldl (fun h c => mixHash h (hash c)) (mixHash h6 37)
+  let h6 := m.waitNested.foldl (fun h c => mixHash h (hash c)) (mixHash h6 41)
   let h7 := m.seen.foldl (fun h f => mixHash h (hash f)) (mixHash h6 17)
   m.invs.foldl (fun h (w, t, l) => mixHash h (mixHash (hash w) (mixHash (hash t) (hash l)))) (mixHash h7 23)
 
@@ -418,6 +433,7 @@ def urgent (env : Env) (m : M) : Option String :=
 /-- timers that must not be skipped when time advances to t -/
 def overdue (env : Env) (m : M) (t : Nat) : Option String :=
   (firstSome env.sc.calls (fun c =>
+    if c.inLd.isSome then none else
     match m.s.cpc c.cid, c.op with
     | .idle, .panic _ =>
       if c.at_ < t && !(m.pcalled.contains c.cid) && !(m.pdone.contains c.cid) then
@@ -428,7 +444,8 @@ def overdue (env : Env) (m : M) (t : Nat) : Option String :=
        | _ => none)
     | .idle, _ => if c.at_ < t then some s!"call c{c.cid} scheduled at {c.at_} was never issued" else none
     | _, _ => none)).orElse fun _ =>
-  firstSome m.invs (fun (w, t0, ld) =>
+  firstSome m.invs.zipIdx (fun ((w, t0, ld), n) =>
+    if m.waitNested.contains n then none else
     match m.s.wpc w, callOf env ld with
     | .running j, some { op := .load _ dur _, .. } =>
       if j.ld = ld && t0 + dur < t then some s!"loader of c{ld} started at {t0} did not end at {t0 + dur}" else none
@@ -457,9 +474,11 @@ def applyEv (env : Env) (m : M) : Ev → Except String M
     match callOf env c with
     | none => .error s!"c{c} is not in the script"
     | some call =>
-      let timeOk := match call.op with
-        | .fget _ => call.at_ ≤ m.s.now      -- issued at its instant or as soon as its Load has returned
-        | _ => call.at_ = m.s.now
+      let timeOk := match call.inLd, call.op with
+        | some ld, _ =>                     -- nested: while the loader of c{ld} runs (before its lmid)
+          m.invs.any (fun (w, _, l) => l == ld && (match m.s.wpc w with | .running j => j.ld == ld | _ => false))
+        | none, .fget _ => call.at_ ≤ m.s.now      -- issued at its instant or as soon as its Load has returned
+        | none, _ => call.at_ = m.s.now
       if !timeOk then .error s!"c{c} issued at {m.s.now}, scripted at {call.at_}" else
       if let .panic _ := call.op then
         (if m.pcalled.contains c || m.pdone.contains c then .error s!"c{c} issued twice"
@@ -527,12 +546,28 @@ def applyEv (env : Env) (m : M) : Ev → Except String M
         .error s!"loader of c{ld} was called with key {key}, model passes {(env.sc.keys[j.key]?).getD "?"}"
       else
         match step? env.cfg m.s (.wStart w) with
-        | some s' => .ok { m with s := s', invs := m.invs ++ [(w, m.s.now, ld)] }
+        | some s' =>
+          let hasNested := env.sc.calls.any (fun c => c.inLd == some ld)
+          .ok { m with s := s', invs := m.invs ++ [(w, m.s.now, ld)],
+                       waitNested := if hasNested then m.waitNested ++ [n] else m.waitNested }
         | none => .error "internal: wStart not enabled"
+  | .lmid n =>
+    match m.invs[n]? with
+    | none => .error s!"loader invocation {n} unknown"
+    | some (w, _, ld) =>
+      let nested := env.sc.calls.filter (fun c => c.inLd == some ld)
+      if nested.isEmpty then .error s!"loader #{n} has no nested calls" else
+      match nested.find? (fun c => match c.op, m.s.cpc c.cid with
+                                    | .panic _, _ => !(m.pdone.contains c.cid)
+                                    | _, .done _ => false
+                                    | _, _ => true) with
+      | some c => .error s!"loader #{n} went on although its nested call c{c.cid} has not returned in the model"
+      | none => .ok { m with invs := m.invs.set n (w, m.s.now, ld), waitNested := m.waitNested.filter (· ≠ n) }
   | .lend n shown =>
     match m.invs[n]? with
     | none => .error s!"loader invocation {n} unknown"
     | some (w, t0, ld) =>
+      if m.waitNested.contains n then .error s!"loader #{n} returned before its nested calls were done (no lmid)" else
       match callOf env ld with
       | some { op := .load _ dur r, .. } =>
         if t0 + dur ≠ m.s.now then .error s!"loader #{n} ended at {m.s.now}, scripted end {t0 + dur}"
